@@ -178,6 +178,19 @@ def World.deliverLsn (w : World) (lid : Nat) (addr : String) (d : List UInt8) : 
       -- the application's accept callback: create the registered connection
       let (w, created) := match acc with
         | some a =>
+          if a.restarted then
+            -- the sample's policy: the connection whose authorised cookie matches is re-bound to the new address
+            match w.eps.find? (fun (p : Nat × EpRec) => match p.2.node with | .conn wr => wr.ep.c.cookie == a.cookie | _ => false) with
+            | some (cid, r') =>
+              match r'.node with
+              | .conn wr =>
+                let c' := { wr.ep.c with lastRecvMs := w.env.nowMs, lastSendMs := w.env.nowMs }
+                let w := { w with routes := ((lid, a.addr), cid) :: w.routes.filter (·.2 != cid) }
+                let w := w.say s!"rebind {cid} {a.addr}"
+                (w.setEp cid { r' with node := .conn { wr with ep := { wr.ep with c := c' } } }, false)
+              | _ => (w, false)
+            | none => (w, false)
+          else
           match w.onaccept.find? (fun (p : (Nat × String) × Nat) => p.1 == (lid, a.addr)) with
           | some (_, cid) =>
             if a.restarted || (w.getEp cid).isSome then (w, false) else
@@ -272,8 +285,8 @@ def hsEncodeFields (e : Env) (f : HsFields) (extra : Option (List UInt8)) (pad :
     ++ [true, f.restart]
     ++ (if f.curver ≥ 1 then writeByte f.minver ++ writeByte f.curver ++ writeByte f.ptype ++ writeByte f.count else [])
     ++ (if f.curver ≥ 2 then writeU32 f.netver else [])
-    ++ [f.sid] ++ f.ts ++ f.cookie
-    ++ (match extra with | some x => bytesToBits x | none => [])
+    -- a restart-handshake request (type 4) carries no secret id / timestamp / cookie
+    ++ (if f.ptype == 4 then [] else [f.sid] ++ f.ts ++ f.cookie ++ (match extra with | some x => bytesToBits x | none => []))
     ++ List.replicate (8 * pad) false ++ [true])
 
 def flipCookieBit (ck : Bits) (byteIdx : Nat) : Bits :=
@@ -454,7 +467,7 @@ def World.exec (w : World) (op : String) (args : List String) : World :=
           w.deliverConn (n 0) d (op.startsWith "w")
         | _, _ => w.say "ret none"
       | _, _ => w.say "ret none"
-    | "dla" | "wdla" =>
+    | "dla" | "wdla" | "hsdla" =>
       match w.getEp (n 0), w.getEp (n 1) with
       | some r, some s =>
         match r.node with
@@ -464,7 +477,9 @@ def World.exec (w : World) (op : String) (args : List String) : World :=
             match w.getEp (n 1) with
             | some s =>
               match s.outbox[s.cur]? with
-              | some d => ((w.setEp (n 1) { s with cur := s.cur + 1 }).noteDelivered (n 0) (n 1) s.cur).deliverConn (n 0) d (op.startsWith "w")
+              | some d =>
+                let w := (w.setEp (n 1) { s with cur := s.cur + 1 }).noteDelivered (n 0) (n 1) s.cur
+                if op == "hsdla" && d.length ≤ 4 then w else w.deliverConn (n 0) d (op.startsWith "w")
               | none => w
             | none => w) w
         | _ => w
